@@ -136,5 +136,6 @@ int main() {
     dom_table()["gfq64"] = &goGF<GFqDom<int64_t> >;
     dom_table()["ext"] = &goExt;
     dom_table()["poly"] = &goPoly;
+    g_fork = true;
     return main_loop();
 }
